@@ -43,10 +43,11 @@ Mro(sh, c) ==
 SubType(a, b) ==    \* issubclass(a, b)
   a = b \/ b = "Parameter" \/ (a = "Integer" /\ b = "Number")
 \* "Tuple": a type with a *computed* constraint -- its length, taken from the (merged) default when left unspecified
-HasSlot(ty, slot) == slot \notin {"bounds", "incl", "nmeta"} \/ ty \in {"Number", "Integer"}
+HasSlot(ty, slot) == IF slot = "it" THEN ty = "List" ELSE slot \notin {"bounds", "incl", "nmeta"} \/ ty \in {"Number", "Integer"}
 TypeDefault(ty, slot) ==
   CASE slot = "default" -> (CASE ty = "Parameter" -> "None" [] ty = "Number" -> "0.0" [] ty = "Integer" -> "0" [] ty = "String" -> ""
-                              [] ty = "Tuple" -> "t2")
+                              [] ty = "Tuple" -> "t2" [] ty = "List" -> "lempty")
+    [] slot = "it" -> "None"              \* item_type: "None" = any type (also when given explicitly), "int", "str"
     [] slot = "bounds" -> "None"
     [] slot = "incl" -> "ii"
     [] slot = "doc" -> "None"
@@ -69,7 +70,9 @@ ValidVal(ty, v, b, incl) ==
     [] ty = "Integer" -> v \in {"0", "1", "5"} /\ InBounds(v, b, incl)
     [] ty = "String" -> v \in {"s", ""}
     [] ty = "Tuple" -> v \in {"t2", "t3"}         \* (0, 0) and (1, 2, 3): any tuple, the length follows the default
+    [] ty = "List" -> v \in {"lempty", "l1", "ls"}     \* [], [1], ["s"]: the item type is checked separately (ItemOK)
 
+ItemOK(it, v) == it = "None" \/ v = "lempty" \/ (it = "int" /\ v = "l1") \/ (it = "str" /\ v = "ls")
 \* the constructor of a declaration validates its own (or the type's) default against its own bounds
 \* allow_None is computed by the constructor from the declaration alone: True if the default the
 \* constructor sees (its own, else the type's) is None, else the value given, else False
@@ -79,7 +82,7 @@ Constructible(d) ==
       b == IF HasSlot(d.ty, "bounds") /\ d.bounds # "U" THEN d.bounds ELSE "None"
       ic == IF HasSlot(d.ty, "incl") /\ d.incl # "U" THEN d.incl ELSE "ii"
   IN IF v = "None" THEN TRUE     \* (allow_None becomes True automatically, or the type default is None)
-     ELSE ValidVal(d.ty, v, b, ic)
+     ELSE ValidVal(d.ty, v, b, ic) /\ (d.ty = "List" => ItemOK(IF d.it = "U" THEN "None" ELSE d.it, v))
 
 \* ---- state: one hierarchy with its declarations ----------------------------------------
 VARIABLES shape, decl
@@ -112,7 +115,8 @@ Res(c, slot) ==
       hs == SelectSeq(Holders(c), LAMBDA a : HasSlot(decl[a].ty, slot))
   IN IF slot = "an" THEN (IF OwnAN(d) THEN "T" ELSE "F")
      ELSE IF slot = "inst"
-          THEN (IF d.inst = "T" \/ \E i \in 1..Len(Holders(c)) : Res(Holders(c)[i], "inst") = "T" THEN "T" ELSE "F")
+          THEN (IF d.inst = "T" \/ d.ty = "List"      \* (a List is instantiate=True unless told otherwise)
+                   \/ \E i \in 1..Len(Holders(c)) : Res(Holders(c)[i], "inst") = "T" THEN "T" ELSE "F")
      ELSE IF d[slot] # "U" THEN d[slot]
      ELSE IF hs # <<>> THEN Res(hs[1], slot)
      ELSE TypeDefault(d.ty, slot)
@@ -128,7 +132,8 @@ LengthOf(c) ==
   IF decl[c].default # "U" THEN TLen(decl[c].default)
   ELSE IF hs # <<>> THEN LengthOf(hs[1])
   ELSE TLen(Res(c, "default"))
-ValidFor(c, v) == ValidVal(decl[c].ty, v, Bounds(c), Incl(c)) /\ (decl[c].ty = "Tuple" => TLen(v) = LengthOf(c))
+ValidFor(c, v) == /\ ValidVal(decl[c].ty, v, Bounds(c), Incl(c)) /\ (decl[c].ty = "Tuple" => TLen(v) = LengthOf(c))
+                  /\ (decl[c].ty = "List" => ItemOK(Res(c, "it"), v))
 TypeChange(c) == \E i \in 1..Len(Holders(c)) : ~SubType(decl[Holders(c)[i]].ty, decl[c].ty)
 
 \* C11: creation of class c must fail exactly when ...
@@ -141,7 +146,7 @@ Fails(c) ==
 \* validated attribute (default, bounds, allow_None, instantiate...) was specified by this class
 \* with a value different from the one the nearest holder has, and the default is not None
 Overridden(c) ==
-  \E slot \in {"default", "bounds", "incl"} :
+  \E slot \in {"default", "bounds", "incl", "it"} :
      LET hs == SelectSeq(Holders(c), LAMBDA a : HasSlot(decl[a].ty, slot)) IN
      HasSlot(decl[c].ty, slot) /\ decl[c][slot] # "U" /\ hs # <<>> /\ Res(hs[1], slot) # decl[c][slot]
 AsBuiltValidates(c) == TypeChange(c) \/ (Overridden(c) /\ Res(c, "default") # "None")
@@ -173,6 +178,7 @@ Expect(c) ==
   ELSE [declares |-> TRUE, exists |-> TRUE, fails |-> FALSE, ty |-> decl[c].ty,
         default |-> Res(c, "default"), bounds |-> Bounds(c), incl |-> Incl(c), doc |-> Res(c, "doc"),
         constant |-> Res(c, "constant"), an |-> Res(c, "an"), inst |-> Res(c, "inst"),
+        it |-> (IF HasSlot(decl[c].ty, "it") THEN Res(c, "it") ELSE "None"),
         meta |-> Res(c, "meta"), nmeta |-> IF HasSlot(decl[c].ty, "nmeta") THEN Res(c, "nmeta") ELSE "None"]
 
 Emit == RecordHist =>
